@@ -183,8 +183,88 @@ class Resolver:
         self.free = {}       # name -> Function (free fns, statics, consts)
         self.impl_info = {}  # impl span text -> (trait_head|None, selfty_head, selfty_full)
         self.enums = {}      # enum name -> [variant names]
+        self.impl_generics = {}
+        self.aliases = {}    # alias name -> (param names, rhs text)
+        self._index_aliases()
         self._index()
         self._index_enums()
+
+    def _index_aliases(self):
+        srcdir = os.path.join(self.repo, 'src')
+        for root, _, files in os.walk(srcdir):
+            for fn in files:
+                if not fn.endswith('.rs'):
+                    continue
+                txt = open(os.path.join(root, fn), encoding='utf-8').read()
+                for m in re.finditer(r'^\s*(?:pub(?:\([a-z]+\))?\s+)?type\s+([A-Za-z_0-9]+)\s*(<[^=]*>)?\s*=\s*([^;]+);', txt, re.M):
+                    params = []
+                    if m.group(2):
+                        params = [x.strip().split(':')[0].strip() for x in split_top(m.group(2)[1:-1]) if x.strip()]
+                        params = [x for x in params if not x.startswith("'")]
+                    self.aliases[m.group(1)] = (params, ' '.join(m.group(3).split()))
+
+    def expand_type(self, ty, depth=0):
+        """Expand crate type aliases at the head of a type (recursively)."""
+        ty = ty.strip()
+        if depth > 8:
+            return ty
+        m = re.match(r'^([A-Za-z_0-9:]+)\s*(<.*>)?$', ty, re.S)
+        if not m:
+            return ty
+        head = m.group(1).split('::')[-1]
+        if head not in self.aliases:
+            return ty
+        params, rhs = self.aliases[head]
+        args = []
+        if m.group(2):
+            args = [a.strip() for a in split_top(m.group(2)[1:-1]) if a.strip() and not a.strip().startswith("'")]
+        out = rhs
+        for pn, a in zip(params, args):
+            out = re.sub(r'\b%s\b' % re.escape(pn), a, out)
+        return self.expand_type(out, depth + 1)
+
+    @staticmethod
+    def type_args(ty):
+        """Generic arguments of a type text (lifetimes dropped)."""
+        ty = ty.strip()
+        k = ty.find('<')
+        if k < 0 or not ty.endswith('>'):
+            return []
+        return [a.strip() for a in split_top(ty[k + 1:-1]) if a.strip() and not a.strip().startswith("'")]
+
+    def bind_generics(self, impl_ty, call_ty, generics, env=None):
+        """Bind the generic parameters of an impl's self type by matching it against a concrete type text."""
+        env = {} if env is None else env
+        it = self.expand_type(impl_ty.strip())
+        ct = self.expand_type(call_ty.strip())
+        it = re.sub(r"^&\s*('[a-z_0-9]+\s+)?(mut\s+)?", '', it)
+        ct = re.sub(r"^&\s*('[a-z_0-9]+\s+)?(mut\s+)?", '', ct)
+        if it in generics:
+            env.setdefault(it, ct)
+            return env
+        if it.startswith('(') and ct.startswith('('):
+            for a, b in zip(split_top(it[1:-1]), split_top(ct[1:-1])):
+                if a.strip() and b.strip():
+                    self.bind_generics(a, b, generics, env)
+            return env
+        for a, b in zip(self.type_args(it), self.type_args(ct)):
+            self.bind_generics(a, b, generics, env)
+        return env
+
+    @staticmethod
+    def unify_args(impl_args, generics, call_args):
+        """Do the call-site generic arguments fit the impl's (generic parameters are wildcards)?"""
+        norm = lambda t: re.sub(r'\s+', '', re.sub(r'(?:[a-z_0-9]+::)+', '', t))
+        for ia, ca in zip(impl_args, call_args):
+            if ia in generics:
+                continue
+            if norm(ia) != norm(ca):
+                # structural: compare heads, recurse into args
+                if type_head(ia) != type_head(ca):
+                    return False
+                if not Resolver.unify_args(Resolver.type_args(ia), generics, Resolver.type_args(ca)):
+                    return False
+        return True
 
     def _src(self, rel):
         if rel not in self.src_cache:
@@ -214,6 +294,16 @@ class Resolver:
                                         int(m.group(5)))
                 if re.match(r'^(unsafe\s+)?impl\b', hdr.strip()):
                     self.impl_info[span] = self._parse_impl_header(hdr)
+                    gm = re.match(r'^(?:unsafe\s+)?impl\s*<', hdr.strip())
+                    gens = set()
+                    if gm:
+                        h2 = hdr.strip()
+                        j = find_matching(h2, h2.index('<'))
+                        for g in split_top(h2[h2.index('<') + 1:j]):
+                            g = g.strip()
+                            if g and not g.startswith("'"):
+                                gens.add(g.split(':')[0].strip())
+                    self.impl_generics[span] = gens
                 else:
                     # #[derive(Trait)]: self type is the next struct/enum item
                     lines = self._src(m.group(1))
@@ -237,6 +327,15 @@ class Resolver:
             meth = segs[0]
             fn.impl_trait = trait
             fn.impl_self = shead
+            # expand type aliases of the self type (e.g. ByteTokenizer -> BaseTokenizer<ByteTokenizerConfig>)
+            if sfull:
+                ex = self.expand_type(sfull)
+                if ex != sfull:
+                    sfull = ex
+                    shead = type_head(ex)
+            fn.impl_self = shead
+            fn.impl_self_full = sfull
+            fn.impl_generics = self.impl_generics.get(span, set())
             if trait is None:
                 self.inherent.setdefault((shead, meth), []).append(fn)
             else:
@@ -338,6 +437,17 @@ class Resolver:
             if c:
                 if len(c) == 1:
                     return c[0]
+                # several impl blocks of the same (alias-expanded) type: pick by the call's generic arguments
+                m = re.search(r'\b%s::<' % re.escape(segs[-2]), ck.raw)
+                if m:
+                    i = m.end() - 1
+                    j = find_matching(ck.raw, i)
+                    cargs = [a.strip() for a in split_top(ck.raw[i + 1:j]) if a.strip() and not a.strip().startswith("'")]
+                    good = [f for f in c if self.unify_args(self.type_args(f.impl_self_full or ''), f.impl_generics, cargs)]
+                    # prefer the most specific impl (fewest wildcard arguments)
+                    good.sort(key=lambda f: sum(1 for a in self.type_args(f.impl_self_full or '') if a in f.impl_generics))
+                    if good:
+                        return good[0]
                 # disambiguate by module segment
                 for f in c:
                     mod = f.name.split('::<impl')[0]
@@ -354,7 +464,7 @@ class Resolver:
             for k in range(1, len(segs)):
                 sub = '::'.join(segs[k:])
                 fn = self.free.get(sub)
-                if fn is not None and fn.kind in ('fn', 'const', 'static', 'promoted'):
+                if fn is not None and fn.kind in ('fn', 'const', 'static', 'promoted', 'constval'):
                     # only accept if the dropped prefix are module names (lowercase)
                     if all(s and (s[0].islower() or s[0] == '_') for s in segs[:k]):
                         return fn
